@@ -454,6 +454,94 @@ def patch_sequence(m, selem, deg, rng):
                    'elem': 'ElementVector(' + type(selem).__name__ + ')', 'N': int(basis.N)}
 
 
+def patch_api_variants(m, elem, deg, rng):
+    """the same mixed Poisson patch problem solved through the other public call forms that forward to the core path:
+    complement_dofs + condense(I=), enforce, penalize, the Neumann basis from basis.boundary(facets) and the flux from a
+    field of fbasis.with_element(elem), zeros()/ones(); every solution against the exact one"""
+    from skfem import Basis, FacetBasis, LinearForm, BilinearForm, solve, condense, enforce, penalize
+    from skfem.helpers import dot, d as hd
+    from skfem.models.poisson import laplace
+    dim = m.dim()
+    u = Poly.random(dim, deg, rng)
+    basis = Basis(m, elem)
+    fD, fN = split_boundary(m, rng, need_dirichlet=True)
+    A = laplace.assemble(basis)
+    lapu = u.lap()
+    b = LinearForm(lambda v, w: -lapu(w.x) * v).assemble(basis)
+    xstar = basis.project(lambda x: u(x))
+    if len(fN):
+        fbN = basis.boundary(fN)                                  # CellBasis.boundary -> FacetBasis
+        gfield = fbN.with_element(elem).interpolate(xstar)        # FacetBasis.with_element; the exact function as a field
+        b = b + LinearForm(lambda v, w: dot(hd(w['uh']), w.n) * v).assemble(fbN, uh=gfield)
+    D = basis.get_dofs(facets=fD)
+    xD = basis.zeros() + 0.0 * basis.ones()
+    xD[D.flatten()] = xstar[D.flatten()]
+    out = {}
+    out['condense(I=complement_dofs(D))'] = relerr(solve(*condense(A, b, x=xD, I=basis.complement_dofs(D))), xstar)
+    out['condense(I=complement_dofs({..}))'] = relerr(solve(*condense(A, b, x=xD, I=basis.complement_dofs({'a': D}))), xstar)
+    out['enforce'] = relerr(solve(*enforce(A, b, x=xD, D=D)), xstar)
+    out['enforce(I=)'] = relerr(solve(*enforce(A, b, x=xD, I=basis.complement_dofs(D))), xstar)
+    pen = relerr(solve(*penalize(A, b, x=xD, D=D)), xstar)
+    worst = max(out.values())
+    info = {'what': 'patch test through complement_dofs / enforce / penalize / basis.boundary / fbasis.with_element', 'elem': type(elem).__name__,
+            'deg': deg, 'u': u.describe(), 'dirichlet_facets': fD.tolist(), 'neumann_facets': fN.tolist(), 'errors': dict(out, penalize=pen)}
+    return max(worst, pen * 1e-2), info              # penalize: 1e-6 against the 1e-8 tolerance
+
+
+def elasticity_alt_form(m, selem, deg, rng):
+    """linear elasticity written with helpers.div / d / mul / transpose / identity instead of models.elasticity:
+    the assembled matrix must equal the one of models.elasticity.linear_elasticity"""
+    from skfem import Basis, BilinearForm, ElementVector
+    from skfem.helpers import ddot, div, d as hd, transpose, identity, mul, dot
+    from skfem.models.elasticity import linear_elasticity
+    lam, mu = float(rng.integers(1, 4)), float(rng.integers(1, 3))
+    basis = Basis(m, ElementVector(selem))
+    A1 = linear_elasticity(lam, mu).assemble(basis)
+
+    def form(u, v, w):
+        eps_u = 0.5 * (hd(u) + transpose(hd(u)))
+        eps_v = 0.5 * (hd(v) + transpose(hd(v)))
+        sigma = 2.0 * mu * eps_u + lam * div(u) * identity(hd(u))
+        return ddot(sigma, eps_v)
+    A2 = BilinearForm(form).assemble(basis)
+    x = rng.uniform(-1, 1, basis.N)
+    err = float(abs(A1 - A2).max()) / max(1.0, float(abs(A1).max()))
+    return err, {'what': 'elasticity via helpers.div/d/transpose/identity vs models.elasticity', 'elem': 'ElementVector(' + type(selem).__name__ + ')',
+                 'lambda': lam, 'mu': mu}
+
+
+def legacy_projection(m, elem, lower, rng):
+    """the deprecated utils.projection / utils.project wrappers (callable, ndarray with basis_from, diff=, I= / expand=)
+    against Basis.project"""
+    from skfem import Basis
+    from skfem.utils import projection, project
+    bt = Basis(m, elem)
+    bf = bt.with_element(lower)
+    u = Poly.random(m.dim(), 1, rng)
+    out = {}
+    ref = bt.project(lambda x: u(x))
+    out['projection(callable)'] = relerr(projection(lambda x: u(x), basis_to=bt), ref)
+    out['project(callable)'] = relerr(project(lambda x: u(x), basis_to=bt), ref)
+    x = rng.uniform(-1, 1, bf.N)
+    out['projection(ndarray, basis_from)'] = relerr(projection(x, basis_to=bt, basis_from=bf), bt.project(bf.interpolate(x)))
+    out['project(ndarray, basis_from)'] = relerr(project(x, basis_from=bf, basis_to=bt), bt.project(bf.interpolate(x)))
+    for k in range(m.dim()):
+        out[f'projection(diff={k})'] = relerr(projection(x, basis_to=bt, basis_from=bf, diff=k), bt.project(bf.interpolate(x).grad[k]))
+    nt = m.t.shape[1]
+    sub = np.sort(rng.permutation(nt)[:int(rng.integers(1, nt + 1))])
+    bsub = Basis(m, elem, elements=sub)
+    I = bsub.get_dofs(elements=sub).flatten()
+    y = np.zeros(bt.N)
+    y[I] = rng.uniform(-1, 1, len(I))
+    zf = projection(bsub.interpolate(y).value * 0 + 0 if False else (lambda xx: 0 * xx[0]), basis_to=bsub, I=I, expand=True)   # zero function: zeros everywhere
+    out['projection(I=, expand=True) zero'] = float(np.max(np.abs(zf))) if len(zf) == bt.N else 1.0
+    z = projection(lambda xx: u(xx), basis_to=bsub, I=I, expand=True)
+    out['projection(I=, expand=True)'] = relerr(z, bsub.project(lambda xx: u(xx)))
+    z2 = projection(lambda xx: u(xx), basis_to=bsub, I=I, expand=False)
+    out['projection(I=, expand=False)'] = relerr(z2, bsub.project(lambda xx: u(xx))[I]) if len(z2) == len(I) else 1.0
+    return max(out.values()), {'what': 'deprecated utils.projection / utils.project', 'elem': type(elem).__name__, 'errors': out}
+
+
 def projection_whole(m, elem, rng, intorder=None):
     from skfem import Basis
     kw = {} if intorder is None else {'intorder': intorder}
